@@ -192,6 +192,8 @@ def _one(cfg, pre):
     from sched import thr_el
 
     res = thr_el.run_threads(cfg, pre)
+    if res["status"] == "hang":  # a watchdog fired: retry once (an overloaded machine can starve the baton hand-over)
+        res = thr_el.run_threads(cfg, pre)
     if res["status"] == "hang":
         raise RuntimeError(f"controller hang cfg={cfg} pre={pre}")
     trace, problems, _ = thr_el.labels_of(res)
